@@ -1884,6 +1884,16 @@ def einsum(formula, *ops, precision=None):
 
   if not contracted:
     return Tensor(out_shape, dt, lambda idx: term(idx, ()))
+  cd = [sym.concrete_int(dims[ch]) for ch in contracted]
+  if all(d is not None for d in cd) and _prod(cd) <= 8:
+    def fn_exact(idx):
+      r = 0.0
+      for ks in itertools.product(*[range(d) for d in cd]):
+        r = r + term(idx, ks)
+      return r
+    te = Tensor(out_shape, dt, fn_exact)
+    te.tags["einsum"] = (formula, ops)
+    return te
   con = Contraction("einsum", ops, out_shape, term, [dims[ch] for ch in contracted])
   t = Tensor(out_shape, dt, lambda idx: con.value(idx))
   t.tags["contraction"] = con
